@@ -358,6 +358,11 @@ func checkC07(w *World, r *Report) {
 	// long - a call back into the evaluator, a channel operation, a sleep - happens while a lock is held, anywhere
 	// in the library
 	// an evaluation that waits for a lock nobody will release cannot be stopped by its context
+	// the deref builtin is the one place where an evaluation waits for another: it waits under the evaluation's own
+	// context (or a child of it), so the cancel or the deadline of the evaluation ends the wait
+	r.include("C07.deref-", "C10.", "a deref waits for the outcome or until the caller's context ends: the builtin hands Deref the context of the evaluation it runs in, never one with a timer of its own", checkC10, func(rule string) bool {
+		return rule == "C10.deref-context"
+	})
 	r.include("C07.scope-", "C11.", "lookups and definitions on a scope chain never wait for each other forever: every scope has a mutex of its own, locks are taken child before parent and never twice", checkC11, func(rule string) bool {
 		switch rule {
 		case "C11.own-lock", "C11.no-reentry", "C11.order", "C11.pair":
